@@ -11,14 +11,16 @@ clean() { git -C /repo checkout -- . ; }
 restore_ev() { git -C /verif checkout -- evidence 2>/dev/null; }
 trap "clean; restore_ev" EXIT
 if [ -n "$(git -C /repo status --porcelain)" ]; then echo "/repo is dirty"; exit 2; fi
-run_one() { # name patch prop
-  name=$1; patch=$2; prop=$3
+run_one() { # name patch prop [reason of a recorded miss]
+  name=$1; patch=$2; prop=$3; miss=$4
   if ! git -C /repo apply --check "$patch" 2>/dev/null; then echo "SKIP $name: patch does not apply"; return; fi
   git -C /repo apply "$patch"
   out=$(./check "$prop" quick 2>&1); rc=$?
   clean
   if [ $rc -eq 1 ] && echo "$out" | grep -q "^VIOLATION property=$prop"; then
     echo "CAUGHT $name ($prop): $(echo "$out" | grep -c '^VIOLATION') violation line(s); $(echo "$out" | grep '^VIOLATION' | grep -vc no-failing-input-found) with failing input"
+  elif [ -n "$miss" ] && [ $rc -eq 0 ]; then
+    echo "RECORDED-MISS $name ($prop): $miss"
   else
     echo "MISSED $name ($prop): rc=$rc"; echo "$out" | tail -3 | sed 's/^/    /'; fail=1
   fi
@@ -35,6 +37,7 @@ for d in seeded/*/; do
   name=seeded-$(basename "$d")
   [ -n "$filter" ] && [[ "$name" != *$filter* ]] && continue
   prop=$(python3 -c "import json,sys; print(json.load(open('$d/meta.json'))['property'])")
-  run_one "$name" "$PWD/$d/patch.diff" "$prop"
+  miss=$(python3 -c "import json,sys; print(json.load(open('$d/meta.json')).get('recorded_miss',''))")
+  run_one "$name" "$PWD/$d/patch.diff" "$prop" "$miss"
 done
 exit $fail
